@@ -136,6 +136,18 @@ def run(ctx, rep):
         rep.check("C16.sync", "scanner advances with skip_until(0xFF)", len(sk) == 1 and op_int(sk[0]["a"][1]) == 0xFF, loc_of(rb))
         cons = [callee_name(t) for _, t in rb.calls() if (t["f"].get("path") or "") in ("std::io::BufRead::consume", "std::io::Read::read", "std::io::Read::read_exact")]
         rep.check("C16.sync", "the scanner never consumes the peeked byte itself", not cons, loc_of(rb), "", "FlacStreamReader::read consumes input directly (%s): a frame whose first byte follows a stray 0xFF can be lost" % cons)
+        import grammar as _g
+        mins = []
+        for bl in rb.blocks:
+            for st in bl["s"]:
+                rv = st["rv"]
+                if rv["r"] == "bin" and rv["op"] in ("Ge", "Gt", "Eq"):
+                    sl = backward_slice(rb, rv["a"])
+                    if "PtrMetadata" in sl["ops"] or any(re.search(r"::len$", callee_name(c)) for c in sl["calls"]):
+                        k = _g.const_arg(rb, rv["b"])
+                        mins.append((rv["op"], k))
+        rep.check("C16.sync", "the sync test looks at exactly one buffered byte after 0xFF (it must work however the source splits its reads)", ("Ge", 1) in mins and all(m in (("Ge", 1), ("Eq", 0)) for m in mins), loc_of(rb), str(mins),
+                  "the scanner requires more than one buffered byte after 0xFF (%s): when a read boundary falls inside the frame header a genuine sync code is skipped and the frame is lost" % mins)
         shr = [t for _, t in rb.calls() if re.search(r"as std::ops::Shr<i32>>::shr$", callee_name(t)) and op_int(t["a"][1]) == 1]
         eqs = [st for bl in rb.blocks for st in bl["s"] if st["rv"]["r"] == "bin" and st["rv"]["op"] == "Eq" and op_int(st["rv"]["b"]) == 0b1111100]
         rep.check("C16.sync", "second sync byte test is (byte >> 1) == 0b1111100", len(shr) == 1 and len(eqs) == 1, loc_of(rb))
